@@ -306,7 +306,15 @@ def run(ctx):
             if any(e["kind"] == "call" and e["callee"] == ip.key for e in p.events):
                 probs.append("x >= max still interpolates")
     ctx.check(seen0 and seen1 and not probs, "R15-knots", cdf.key + ":clamps", cdf, "x < min => 0 and x >= max => 1 are decided before any interpolation", "; ".join(probs) or "clamping branches on min/max not found")
+    read_rules(ctx)
 
+
+def read_rules(ctx):
+    """R15-merge-before-read / R15-validation: every public read merges the backlog first, merge is idempotent on an empty backlog,
+    arguments are validated before the digest is touched. Also run by C04 (a read that skips the merge answers for a digest that
+    is missing up to max_backlog_size values: no rank bound holds for it)."""
+    prog = ctx.prog
+    selfp = ("param", 1, "self")
     # ---- merge before read ------------------------------------------------------------------------------------
     readers = {TI + "::quantile", TI + "::cdf", TI + "::count", TI + "::sum"}
     n_pub = 0
